@@ -147,6 +147,10 @@ func (r *EngRun) val(o EngOp) []byte {
 var errReopen = errors.New("reopen failed")
 
 // Apply executes op on the engine and, when it reports success, on the model.
+// engRangeView adds bounded scans to the own-view check of transaction steps (sequential units only: under an
+// explored schedule the extra iterator steps would only multiply interleavings of reads that are checked anyway).
+var engRangeView bool
+
 func (r *EngRun) Apply(o EngOp) error {
 	r.Step++
 	var err error
@@ -217,6 +221,56 @@ func (r *EngRun) Apply(o EngOp) error {
 			sort.Strings(want)
 			if r.TxView == "" && strings.Join(got, ",") != strings.Join(want, ",") {
 				r.TxView = fmt.Sprintf("tx-scan-differs\ninside %s: the transaction's scan yields [%s], its own view is [%s]", o.String(), strings.Join(got, ","), strings.Join(want, ","))
+			}
+			if !engRangeView {
+				return
+			}
+			// bounded scans of the same view: [k, end) and [start, k) for every key the body names (a bound equal
+			// to a key the transaction wrote is the interesting one) and for one key on either side of them
+			bounds := map[string]bool{"": true, "0": true, "zz": true}
+			for _, s := range o.Sub {
+				if s.Kind != "scan" {
+					bounds[s.Key] = true
+				}
+			}
+			for k := range r.Model {
+				bounds[k] = true
+			}
+			var bs []string
+			for k := range bounds {
+				bs = append(bs, k)
+			}
+			sort.Strings(bs)
+			for _, lo := range bs {
+				for _, hi := range bs {
+					if lo != "" && hi != "" && lo >= hi {
+						continue
+					}
+					var lob, hib []byte
+					if lo != "" {
+						lob = []byte(lo)
+					}
+					if hi != "" {
+						hib = []byte(hi)
+					}
+					rit := tx.NewRangeIterator(lob, hib)
+					var rgot, rwant []string
+					for rit.SeekToFirst(); rit.Valid() && len(rgot) < 100; rit.Next() {
+						if rit.IsTombstone() {
+							continue
+						}
+						rgot = append(rgot, string(rit.Key())+"="+string(clip(rit.Value())))
+					}
+					for k, v := range view {
+						if (lo == "" || k >= lo) && (hi == "" || k < hi) {
+							rwant = append(rwant, k+"="+string(clip(v)))
+						}
+					}
+					sort.Strings(rwant)
+					if r.TxView == "" && strings.Join(rgot, ",") != strings.Join(rwant, ",") {
+						r.TxView = fmt.Sprintf("tx-range-scan-differs\ninside %s: the transaction's scan of [%q, %q) yields [%s], its own view is [%s]", o.String(), lo, hi, strings.Join(rgot, ","), strings.Join(rwant, ","))
+					}
+				}
 			}
 				}
 		for i, s := range o.Sub {
